@@ -41,7 +41,10 @@ def kernel_sibs(ctx, prog, rule='KERNEL-SIBS'):
                 if x['k'] == 'DeclStmt':
                     for v in x.get('decls', []):
                         locs.setdefault(v['n'], {})[T] = v['t']
-            stores[T] = sorted({(lv, f.s(r)) for lv, a, r in assigned_lvalues(f) if '->' in lv and r is not None})
+            # a pointer that is advanced in the kernel is a cursor over the sample arrays, not the codec's private state
+            cursors = {lv for lv, a, r in assigned_lvalues(f) if '->' not in lv and '[' not in lv and (a['k'] in ('CompoundAssignOperator', 'UnaryOperator'))}
+            f.__dict__['_ks_cursors'] = cursors
+            stores[T] = sorted({(lv, f.s(r)) for lv, a, r in assigned_lvalues(f) if '->' in lv and r is not None and lv.split('->')[0].lstrip('(*') not in cursors})
         n += 1
         name = '%s:%s2%s%s' % (key[0].split('/')[-1], '*' if key[1] == 'w' else key[2], key[2] if key[1] == 'w' else '*', key[3])
         bad = []
@@ -56,7 +59,7 @@ def kernel_sibs(ctx, prog, rule='KERNEL-SIBS'):
                     carried.add(lv)
             # a local that is stored into / loaded from the private struct carries state between calls
             for lv, a, r in assigned_lvalues(f):
-                if '->' in lv and r is not None:
+                if '->' in lv and r is not None and lv.split('->')[0].lstrip('(*') not in f.__dict__.get('_ks_cursors', ()):
                     carried |= {x['n'] for x in f.walk(r) if x['k'] == 'DeclRefExpr' and x.get('dk') in (None, 'var', 'local')}
         for v, ts in sorted(locs.items()):
             if len(ts) < 2 or v not in carried:
